@@ -127,6 +127,8 @@ def sec_measured(ctx, rng, case):
                        cond_blocks=bool(rng.random() < 0.5))
     if not _has_block(items) or not any(s["t"] == "M" for s in B.flatten(items)):
         return
+    if rng.random() < 0.4:
+        B.add_tags(rng, items)
     qubits = P.make_qubits(rng, dims)
     circuit = cirq.Circuit(B.items_to_moments(items, qubits))
     flat = B.flatten(items)
